@@ -60,15 +60,18 @@ def _cut(self, k, spec, n, extra_targets=()):
 def _loop_frame(self, k, spec, mark_w, mark_m):
     """writes made by one iteration must lie within the loop's modifies set"""
     st = self.st
-    allowed_h, allowed_m = set(), set()
+    allowed_h, allowed_m, allowed_cls = set(), set(), set()
     for loc in spec.modifies(self):
         if loc[0] == 'heap':
             allowed_h.add((loc[1].oid, loc[2]))
         elif loc[0] == 'mem':
             allowed_m.add(loc[1].ident)
-    pre_alloc = getattr(self, '_loop_prealloc', None)
+        elif loc[0] == 'heapcls':
+            allowed_cls.add((loc[1], loc[2]))
     bad = []
     for oid, f in st.writes[mark_w:]:
+        if any(issubclass(st.heap[oid].cls, c) and f == fld for c, fld in allowed_cls):
+            continue
         if (oid, f) not in allowed_h and oid in self._loop_heap_ids:
             bad.append('%s.%s' % (st.heap[oid].cls.__name__, f))
     for ident in st.memwrites[mark_m:]:
